@@ -35,6 +35,10 @@ pub struct FlowScript {
     pub first: u32,
     pub ops: Vec<Op>,
     pub ending: Ending,
+    /// the side that receives the last bytes does not read for this many milliseconds while the other side writes them and
+    /// closes (a slow consumer: the bytes wait in the relay's buffers when the close arrives)
+    #[serde(default)]
+    pub slow_reader_ms: u16,
 }
 
 #[derive(Clone, Debug)]
@@ -196,9 +200,16 @@ pub fn run_flow(client_port: u16, sc: &FlowScript, tag: u64) -> (FlowReport, Opt
         let mut dt = None;
         match &sc.ending {
             Ending::TargetCloses(n) => {
+                if sc.slow_reader_ms > 0 {
+                    f.app_rx.pause.store(true, std::sync::atomic::Ordering::Relaxed);
+                }
                 f.tgt_write(*n as usize)?;
                 let t0 = Instant::now();
                 let _ = f.tgt.shutdown(Shutdown::Both);
+                if sc.slow_reader_ms > 0 {
+                    std::thread::sleep(Duration::from_millis(sc.slow_reader_ms as u64));
+                    f.app_rx.pause.store(false, std::sync::atomic::Ordering::Relaxed);
+                }
                 let want = f.tgt_sent;
                 let (a, _) = f.app_rx.wait(wait(), |r| r.eof || r.err.is_some());
                 f.check_content()?;
@@ -214,12 +225,19 @@ pub fn run_flow(client_port: u16, sc: &FlowScript, tag: u64) -> (FlowReport, Opt
                 dt = a.t_eof.map(|t| t.duration_since(t0));
             }
             Ending::AppCloses(n) | Ending::AppHalfCloses(n) => {
+                if sc.slow_reader_ms > 0 {
+                    f.tgt_rx.pause.store(true, std::sync::atomic::Ordering::Relaxed);
+                }
                 f.app_write(*n as usize)?;
                 let t0 = Instant::now();
                 if matches!(sc.ending, Ending::AppCloses(_)) {
                     let _ = f.app.shutdown(Shutdown::Both);
                 } else {
                     let _ = f.app.shutdown(Shutdown::Write);
+                }
+                if sc.slow_reader_ms > 0 {
+                    std::thread::sleep(Duration::from_millis(sc.slow_reader_ms as u64));
+                    f.tgt_rx.pause.store(false, std::sync::atomic::Ordering::Relaxed);
                 }
                 let want = f.app_sent + f.pre_len;
                 let (t, _) = f.tgt_rx.wait(wait(), |r| r.eof || r.err.is_some());
@@ -253,7 +271,7 @@ pub fn run_flow(client_port: u16, sc: &FlowScript, tag: u64) -> (FlowReport, Opt
 
 /// A plain echo-style canary: SOCKS5, `n` bytes up, `n` bytes down, target closes. Ok(()) when byte-exact.
 pub fn canary(client_port: u16, n: u32, tag: u64) -> Result<(), FlowFail> {
-    let sc = FlowScript { hs: Hs::Socks5V4, first: n, ops: vec![Op::TargetWrite(n), Op::Sync], ending: Ending::TargetCloses(7) };
+    let sc = FlowScript { hs: Hs::Socks5V4, first: n, ops: vec![Op::TargetWrite(n), Op::Sync], ending: Ending::TargetCloses(7), slow_reader_ms: 0 };
     let (rep, _) = run_flow(client_port, &sc, tag);
     match rep.fail {
         Some(f) => Err(f),
